@@ -359,15 +359,16 @@ func findCmd(args []string) error {
 	// crowded directories (implementation only): the spokfile is one entry among thousands, created first, in the middle or last
 	if *shard == 1%*nshards && hangs < 3 {
 		base := filepath.Join(tmp, "crowded")
-		for _, when := range []int{0, 1500, 2999} {
+		// (the order in which a directory is listed depends on the names in it, not on when they were created: six sets of names)
+		for vi, when := range []int{0, 2500, 4999, 1, 4000, 3} {
 			os.RemoveAll(base)
 			start := filepath.Join(base, "proj", "sub")
 			os.MkdirAll(start, 0o755)
-			for i := 0; i < 3000; i++ {
+			for i := 0; i < 5000; i++ {
 				if i == when {
 					os.WriteFile(filepath.Join(base, "proj", "spokfile"), []byte("task crowded() {\n}\n"), 0o644)
 				}
-				os.WriteFile(filepath.Join(base, "proj", fmt.Sprintf("filler-%04d.txt", (i*7919)%3000)), nil, 0o644)
+				os.WriteFile(filepath.Join(base, "proj", fmt.Sprintf("%c%d-filler-%04d.txt", 'a'+vi*3, vi, (i*7919)%5000)), nil, 0o644)
 			}
 			resCh := make(chan string, 1)
 			go func() {
@@ -387,7 +388,7 @@ func findCmd(args []string) error {
 			st.StopKinds["crowded-directory(impl only)"]++
 			if want := "F " + filepath.Join(base, "proj"); res != want {
 				st.OracleFail["C17"]++
-				fmt.Fprintf(bo, "C17 crowded-directory:%d Find from proj/sub, where proj holds a spokfile (created as entry %d) among 3000 other files, returned %q\n", when, when, strings.TrimPrefix(res, base))
+				fmt.Fprintf(bo, "C17 crowded-directory:%d Find from proj/sub, where proj holds a spokfile (created as entry %d) among 5000 other files, returned %q\n", when, when, strings.TrimPrefix(res, base))
 			}
 		}
 		os.RemoveAll(base)
